@@ -57,6 +57,13 @@ func routeEq(a, b *RouteObs) bool {
 	return Diff(Canon(a), Canon(b)) == ""
 }
 
+func obsPathVars(r *RouteObs) []string {
+	if r == nil {
+		return nil
+	}
+	return r.PathVars
+}
+
 func genPrefix(f *File) string { return strings.TrimSuffix(f.Path, ".proto") }
 
 // CheckC03 runs the C03 correspondence and oracle.
@@ -72,12 +79,17 @@ func CheckC03(run *Run) {
 	reqs = append(reqs, BodyShapeRequests()...)
 	reqs = append(reqs, PathOrderRequests()...)
 	reqs = append(reqs, SameShortNameRequests()...)
+	// base_path spellings x method path spellings x variable positions (c03_segments.go)
+	reqs = append(reqs, BaseSpellingRequests()...)
 	n, nt := 8, 8
 	nb, no := 6, 4
+	ns := 4
 	if run.Tier == "thorough" {
 		n, nt = 400, 200
 		nb, no = 150, 100
+		ns = 120
 	}
+	reqs = append(reqs, RandomBaseSpellingRequests(rand.New(rand.NewSource(run.Seed+333)), ns)...)
 	reqs = append(reqs, RandomBodyShapeRequests(rand.New(rand.NewSource(run.Seed+313)), nb)...)
 	reqs = append(reqs, RandomPathOrderRequests(rand.New(rand.NewSource(run.Seed+323)), no)...)
 	reqs = append(reqs, RandomRouteRequests(rand.New(rand.NewSource(run.Seed+3)), n)...)
@@ -120,6 +132,9 @@ func CheckC03(run *Run) {
 			GoServerBodyBinding(gs, g.Results["go-http"].Files[pre+"_http.pb.go"], g.Results["go-http"].Files[pre+"_http_binding.pb.go"])
 			tc := TsClientRoutes(tcSrc)
 			tss := TsServerRoutes(tsSrc)
+			// which segment of the request path the emitted handler reads each variable from, against the
+			// segment the published template puts it in
+			TsServerSegmentBinding(tss, tsSrc)
 			for _, s := range f.Services {
 				docText, ok := g.Results["openapiv3"].Files[s.Name+".openapi.yaml"]
 				var ops []*OpenAPIOp
@@ -153,6 +168,13 @@ func CheckC03(run *Run) {
 					note := ""
 					if !holds {
 						note = "the five generators do not agree on verb/path/placement"
+						for _, pv := range obsPathVars(tss[s.Name+"."+lf]) {
+							if strings.Contains(pv, "(read from segment") {
+								note = "the TS server publishes " + tss[s.Name+"."+lf].Path + " but its handler reads " + pv +
+									"; the other outputs carry the field in segment " + fmt.Sprint(SegmentOf(gc[lowerFirst(s.Name)+"."+m.Name]))
+								break
+							}
+						}
 					}
 					in, _ := r.FindMessage(m.In)
 					c := &CaseResult{ID: r.ID + "/" + s.Name + "." + m.Name, Family: "route-projections",
